@@ -1,0 +1,32 @@
+//go:build verif
+
+package snapcache
+
+import "context"
+
+// Verification-only re-exports (compiled only with -tags verif).
+
+// VerifInputLen is the number of objects waiting on the input channel.
+func (c *Cache) VerifInputLen() int { return len(c.inputC) }
+
+// VerifInputCap is the capacity of the input channel.
+func (c *Cache) VerifInputCap() int { return cap(c.inputC) }
+
+// VerifLoopOnce runs one iteration of the body of Cache.loop synchronously:
+// fillBatchFromInputQueue followed by publishBreadcrumbs.  The caller must make
+// sure the input channel is non-empty (otherwise fillBatchFromInputQueue blocks).
+func (c *Cache) VerifLoopOnce(ctx context.Context) error {
+	if err := c.fillBatchFromInputQueue(ctx); err != nil {
+		return err
+	}
+	c.publishBreadcrumbs()
+	return nil
+}
+
+// VerifBroadcast wakes every goroutine blocked in Breadcrumb.Next (used by the
+// harness watchdog only).
+func (c *Cache) VerifBroadcast() { c.breadcrumbCond.Broadcast() }
+
+// VerifStopTickers stops the cache's background tickers (the harness never
+// starts the cache's own goroutine).
+func (c *Cache) VerifStopTickers() { c.wakeUpTicker.Stop() }
